@@ -5,6 +5,7 @@ package ast
 import (
 	"bytes"
 	"fmt"
+	"sort"
 	"strconv"
 	"strings"
 
@@ -754,14 +755,17 @@ func (n *MapLiteralNode) String() string {
 	if len(n.Items) == 0 {
 		return "[:]"
 	}
+	var keys = make([]string, 0, len(n.Items))
+	for k := range n.Items {
+		keys = append(keys, k)
+	}
+	sort.Strings(keys)
 	var expr = "["
-	var first = true
-	for k, v := range n.Items {
-		if !first {
+	for i, k := range keys {
+		if i > 0 {
 			expr += ", "
 		}
-		expr += fmt.Sprintf("'%s': %s", k, v.String())
-		first = false
+		expr += quoteString(k) + ": " + n.Items[k].String()
 	}
 	return expr + "]"
 }
@@ -917,6 +921,34 @@ func operandString(n Node) string {
 		return "(" + n.String() + ")"
 	}
 	return n.String()
+}
+
+// quoteString writes s as a Soy string literal.
+func quoteString(s string) string {
+	var b bytes.Buffer
+	b.WriteByte('\'')
+	for _, ch := range s {
+		switch ch {
+		case '\\':
+			b.WriteString(`\\`)
+		case '\'':
+			b.WriteString(`\'`)
+		case '\n':
+			b.WriteString(`\n`)
+		case '\r':
+			b.WriteString(`\r`)
+		case '\t':
+			b.WriteString(`\t`)
+		case '\b':
+			b.WriteString(`\b`)
+		case '\f':
+			b.WriteString(`\f`)
+		default:
+			b.WriteRune(ch)
+		}
+	}
+	b.WriteByte('\'')
+	return b.String()
 }
 
 type TernNode struct {
